@@ -2026,6 +2026,165 @@ class FortranFile:
         return None
 
 
+PP_EXPR_TOKEN = re.compile(
+    r"[ \t]*(?:(\d+)[uUlL]*|([A-Za-z_]\w*)|(&&|\|\||==|!=|<=|>=|<<|>>|[-+*/%!<>()~&|^]))"
+)
+PP_BINARY_OPS = [
+    ("||",),
+    ("&&",),
+    ("|",),
+    ("^",),
+    ("&",),
+    ("==", "!="),
+    ("<", ">", "<=", ">="),
+    ("<<", ">>"),
+    ("+", "-"),
+    ("*", "/", "%"),
+]
+
+
+def eval_pp_expression(text: str, defs: dict) -> int:
+    """Evaluate the integer expression of a preprocessor ``#if``/``#elif``
+
+    Supports ``defined X``, ``defined(X)``, integer literals, object-like
+    macros (expanded, undefined names are 0), parentheses and the C unary,
+    arithmetic, bitwise, comparison and logical operators.
+
+    Raises
+    ------
+    ValueError
+        If the text is not such an expression
+    """
+
+    def tokenize(expr: str) -> list[str]:
+        tokens = []
+        pos = 0
+        expr = expr.rstrip()
+        while pos < len(expr):
+            match = PP_EXPR_TOKEN.match(expr, pos)
+            if match is None:
+                raise ValueError(f"Unexpected character in expression: {expr[pos:]}")
+            tokens.append(match.group(1) or match.group(2) or match.group(3))
+            pos = match.end(0)
+        return tokens
+
+    def expand(tokens: list[str], active: tuple = ()) -> list[str]:
+        out = []
+        i = 0
+        while i < len(tokens):
+            tok = tokens[i]
+            if tok == "defined":
+                # The operand of defined is never macro expanded
+                n = 4 if tokens[i + 1 : i + 2] == ["("] else 2
+                out += tokens[i : i + n]
+                i += n
+                continue
+            value = defs.get(tok) if tok not in active else None
+            if isinstance(value, str) and (tok[0].isalpha() or tok[0] == "_"):
+                out += expand(tokenize(value), active + (tok,))
+            else:
+                out.append(tok)
+            i += 1
+        return out
+
+    tokens = expand(tokenize(text))
+    pos = 0
+
+    def peek():
+        return tokens[pos] if pos < len(tokens) else None
+
+    def advance():
+        nonlocal pos
+        pos += 1
+        return tokens[pos - 1]
+
+    def primary() -> int:
+        tok = peek()
+        if tok is None:
+            raise ValueError("Unexpected end of expression")
+        advance()
+        if tok == "(":
+            val = binary(0)
+            if peek() != ")":
+                raise ValueError("Missing closing parenthesis")
+            advance()
+            return val
+        if tok == "defined":
+            name = advance() if peek() is not None else ""
+            if name == "(":
+                name = advance() if peek() is not None else ""
+                if peek() != ")":
+                    raise ValueError("Missing closing parenthesis")
+                advance()
+            if not (name[:1].isalpha() or name[:1] == "_"):
+                raise ValueError("defined requires an identifier")
+            return int(name in defs)
+        if tok == "!":
+            return int(not primary())
+        if tok == "-":
+            return -primary()
+        if tok == "+":
+            return primary()
+        if tok == "~":
+            return ~primary()
+        if tok.isdigit():
+            return int(tok)
+        if tok[0].isalpha() or tok[0] == "_":
+            # An empty definition is stored as True, anything else left is unknown
+            return int(tok == "True")
+        raise ValueError(f"Unexpected token: {tok}")
+
+    def binary(level: int) -> int:
+        if level == len(PP_BINARY_OPS):
+            return primary()
+        left = binary(level + 1)
+        while peek() in PP_BINARY_OPS[level]:
+            op = advance()
+            right = binary(level + 1)
+            if op == "||":
+                left = int(bool(left) or bool(right))
+            elif op == "&&":
+                left = int(bool(left) and bool(right))
+            elif op == "|":
+                left |= right
+            elif op == "^":
+                left ^= right
+            elif op == "&":
+                left &= right
+            elif op == "==":
+                left = int(left == right)
+            elif op == "!=":
+                left = int(left != right)
+            elif op == "<":
+                left = int(left < right)
+            elif op == ">":
+                left = int(left > right)
+            elif op == "<=":
+                left = int(left <= right)
+            elif op == ">=":
+                left = int(left >= right)
+            elif op == "<<":
+                left <<= right
+            elif op == ">>":
+                left >>= right
+            elif op == "+":
+                left += right
+            elif op == "-":
+                left -= right
+            elif op == "*":
+                left *= right
+            elif op == "/":
+                left = int(left / right)
+            elif op == "%":
+                left = left - right * int(left / right)
+        return left
+
+    value = binary(0)
+    if pos != len(tokens):
+        raise ValueError(f"Unexpected token: {tokens[pos]}")
+    return value
+
+
 def preprocess_file(
     contents_split: list,
     file_path: str = None,
@@ -2038,52 +2197,12 @@ def preprocess_file(
     # For "if" statements all blocks are excluded except the "else" block if present
     # For "ifndef" statements all blocks excluding the first block are excluded
     def eval_pp_if(text, defs: dict = None):
-        def replace_ops(expr: str):
-            expr = expr.replace("&&", " and ")
-            expr = expr.replace("||", " or ")
-            expr = expr.replace("!=", " <> ")
-            expr = expr.replace("!", " not ")
-            expr = expr.replace(" <> ", " != ")
-            return expr
-
-        def replace_defined(line: str):
-            i0 = 0
-            out_line = ""
-            for match in FRegex.DEFINED.finditer(line):
-                if match.group(1) in defs:
-                    out_line += line[i0 : match.start(0)] + "(@$@)"
-                else:
-                    out_line += line[i0 : match.start(0)] + "(%$%)"
-                i0 = match.end(0)
-            if i0 < len(line):
-                out_line += line[i0:]
-            return out_line
-
-        def replace_vars(line: str):
-            i0 = 0
-            out_line = ""
-            for match in FRegex.WORD.finditer(line):
-                if match.group(0) in defs:
-                    out_line += line[i0 : match.start(0)] + defs[match.group(0)]
-                else:
-                    out_line += line[i0 : match.start(0)] + "False"
-                i0 = match.end(0)
-            if i0 < len(line):
-                out_line += line[i0:]
-            out_line = out_line.replace("@$@", "True")
-            out_line = out_line.replace("%$%", "False")
-            return out_line
-
-        if defs is None:
-            defs = {}
-        out_line = replace_defined(text)
-        out_line = replace_vars(out_line)
+        # The condition is parsed and evaluated here; it is never handed to the
+        # Python interpreter since it comes straight from source files
         try:
-            line_res = eval(replace_ops(out_line))
-        except:
+            return bool(eval_pp_expression(text, defs if defs is not None else {}))
+        except (ValueError, ZeroDivisionError, RecursionError):
             return False
-        else:
-            return line_res
 
     def expand_func_macro(def_name: str, def_value: tuple[str, str]):
         def_args, sub = def_value
